@@ -146,6 +146,27 @@ class Arr:
     def flatten(self):
         return Arr(self.v, self.kind)
 
+    def _reduce(self, fn, what):
+        if not self.v:
+            raise ModelFault(f"zero-size array to reduction operation "
+                             f"{what}")
+        try:
+            return fn(self.v)
+        except TypeError:
+            raise MiniError(f"{what}() of a non-numeric model array")
+
+    def min(self):
+        return self._reduce(min, "minimum")
+
+    def max(self):
+        return self._reduce(max, "maximum")
+
+    def argmin(self):
+        return self.v.index(self.min())
+
+    def argmax(self):
+        return self.v.index(self.max())
+
     def __repr__(self):
         return f"Arr({self.v})"
 
@@ -972,7 +993,7 @@ def _np_array(a, dtype=None, copy=True):
     if isinstance(a, (list, tuple)):
         if a and all(isinstance(x, (Arr, Feat)) for x in a):
             return Mat([x if isinstance(x, Arr) else Arr(x.all_events(), "ev")
-                        for x in a])
+                        for x in a], dtype=dtype)
         return Arr(a)
     raise MiniError(f"np.array of {type(a).__name__} in the model")
 
@@ -980,16 +1001,17 @@ def _np_array(a, dtype=None, copy=True):
 class Mat:
     """list of equally long columns (np.array(list of 1-d arrays))"""
 
-    def __init__(self, rows, transposed=False):
+    def __init__(self, rows, transposed=False, dtype=None):
         self.rows = rows
         self.transposed = transposed
+        self.dtype = dtype      # explicit dtype requested for the table
         lens = {len(r) for r in rows}
         if len(lens) > 1:
             raise ModelFault("inhomogeneous shape: the feature columns have "
                              f"different lengths {sorted(lens)}")
 
     def transpose(self):
-        return Mat(self.rows, not self.transposed)
+        return Mat(self.rows, not self.transposed, self.dtype)
 
     @property
     def T(self):
@@ -1030,6 +1052,10 @@ def numpy_model(**extra):
                                for x in a),
              logical_not=lambda a: ~a, invert=lambda a: ~a,
              repeat=lambda a, *k, **kw: a, bool_=bool, uint8="uint8",
-             float64="float64", nan=Ev("const", 0, "nan"))
+             float64="float64", float32="float32", float16="float16",
+             double="float64", single="float32", half="float16",
+             longdouble="longdouble", int64="int64", int32="int32",
+             int16="int16", uint16="uint16", uint32="uint32",
+             nan=Ev("const", 0, "nan"))
     d.update(extra)
     return NS("np", **d)
